@@ -1,10 +1,10 @@
 INIT XInit
 NEXT XNext
 CONSTANTS
-  Kinds <- MCKinds
-  NV <- MCNV
+  Kinds <- HKinds
+  NV = 3
   MaxOcc = 2
-  MaxCalls = 1
+  MaxCalls = 2
   Conv <- MCConv
   Bounds <- MCBounds
 INVARIANT GetterNeverMisreports
@@ -16,4 +16,5 @@ INVARIANT PresentProtocol
 INVARIANT StoreOnlyOnSuccess
 INVARIANT LastOccurrenceOnly
 INVARIANT HistoryFree
-INVARIANT Emit
+PROPERTY MCReadOnly
+PROPERTY MCStoreUntouched
